@@ -30,6 +30,9 @@ IDPS = {
     "D-encryption-only": {"eid": "https://idp-d.example.org/md", "keys": [("encryption", 6)]},
     "E-two-signing": {"eid": "https://idp-e.example.org/md", "keys": [("signing", 7), ("signing", 8)]},
     "U-unknown": {"eid": "https://idp-u.example.org/md", "keys": None},
+    # key descriptors without a certificate (KeyName only, X509Data without X509Certificate) next to one that has it: metadata HOLDS a signing key
+    "I-keyname+signing": {"eid": "https://idp-i.example.org/md", "keys": [("signing", "keyname"), ("signing", 10)]},
+    "J-signing+x509-without-certificate": {"eid": "https://idp-j.example.org/md", "keys": [("signing", 10), (None, "x509-without-certificate")]},
     # metadata that HOLDS signing keys whose certificates are outside their validity period (k12, k14 expired 2010/2011, k13 not valid before
     # 2090): the property's rule is about what metadata holds, so embedded certificates stay untrusted; whether a signature under such a
     # key is accepted is not asserted in either direction (certificate validity is not part of C03)
@@ -37,12 +40,12 @@ IDPS = {
     "G-not-yet-valid-useless": {"eid": "https://idp-g.example.org/md", "keys": [(None, 13)], "validity": "out"},
     "H-two-expired+encryption": {"eid": "https://idp-h.example.org/md", "keys": [("signing", 12), ("signing", 14), ("encryption", 4)], "validity": "out"},
 }
-KEYS = [0, 3, 4, 5, 6, 7, 8, 9, 1, 12, 13]     # 9: a third party, 1: the SP's own key, 12/13: keys whose certificates are out of their validity period
+KEYS = [0, 3, 4, 5, 6, 7, 8, 9, 1, 12, 13, 10]     # 9: a third party, 1: the SP's own key, 12/13: keys whose certificates are out of their validity period
 
 
 def signing_capable(name):
     ks = IDPS[name]["keys"]
-    return [k for u, k in (ks or []) if u in ("signing", None)]
+    return [k for u, k in (ks or []) if u in ("signing", None) and isinstance(k, int)]
 
 
 def gen_cases(tier, seed):
